@@ -52,6 +52,36 @@ def make_mixed(ctx, count, length):
     return scns
 
 
+def make_churn(ctx, count):
+    """rounds of observation churn (G.obs_churn: the record steered to powers of two, multiples of 256 and the bound, drained in
+    parts, poked at every level), each round closed by a topology Reset: after every Reset the baseline, and never more live
+    memory than the first rounds needed"""
+    scns = []
+    for i in range(count):
+        rng = G.rng_for(ctx.seed, "C19churn", i)
+        cfg = G.rand_cfg(rng, mtu=rng.choice([576, 1500, 1500, 9000]))
+        net = G.Net(rng, cfg["mac"])
+        m = rng.randrange(len(net.mappers))
+        s = H.Scenario("ch%d" % i, meta=dict(kind="churn"))
+        s.iface(0, **H.iface_kw(cfg)).glob(**G.global_kw(G.rand_global(rng, icon_size=100)))
+        s.add("OPT sleep=0 txhex=0 txcap=0 ledger=1")
+        rounds = 0
+        for rnd in range(ctx.n(4, 8)):
+            frames, mtu_changes, st = G.obs_churn(rng, net, m, cfg["mtu"], mode=["boundaries", "sawtooth", "small", "flood"][(i + rnd) % 4],
+                                                 budget=ctx.n(1500, 3000))
+            for k, fr in enumerate(frames):
+                if k in mtu_changes:
+                    s.add("MTU 0 %d %d" % (mtu_changes[k], cfg["rxseed"]))
+                s.frame(0, fr)
+            s.add("MTU 0 %d %d" % (cfg["mtu"], cfg["rxseed"]))
+            s.frame(0, W.reset(net.mappers[m], tos=0))
+            s.add("MARK round")
+            rounds += 1
+        s.meta["rounds"] = rounds
+        scns.append(s)
+    return scns
+
+
 def make_baseline():
     s = H.Scenario("base", meta=dict(kind="baseline"))
     own = bytes.fromhex("02aabbccdd10")
@@ -230,6 +260,25 @@ def monitor(scn, sobj, rep, sf, ck):
                 rep.nontrivial(("flood", len(series), ref))
                 rep.count("plateau_checked")
         return
+    if kind == "churn":
+        per_round = []
+        for pos, lab in scn.marks:
+            if lab == "round" and pos > 0 and scn.inputs[pos - 1].led is not None:
+                per_round.append(scn.inputs[pos - 1].led)
+        rep.count("churn_rounds", len(per_round))
+        for r, led in enumerate(per_round):
+            if led[0] != 1:
+                rep.violation("C19:allocations-survive-reset:after-observation-churn",
+                              "scenario %s: round %d of observation churn (fill levels, partial drains, re-sent observations) closed by "
+                              "a topology Reset: %d allocations / %d bytes are live, the per-interface record alone is expected"
+                              % (scn.sid, r + 1, led[0], led[1]), replay=sobj.text())
+                break
+        else:
+            if per_round:
+                if scn.clean:
+                    stash(rep).setdefault("after_reset", []).append((scn.sid, per_round[-1][0], per_round[-1][1]))
+                rep.nontrivial(("churn", scn.sid, len(per_round)))
+        return
     if kind == "multi":
         nif = sobj.meta["nif"]
         base = stash(rep).get("baseline")
@@ -359,6 +408,7 @@ def run(ctx):
     binary = H.build(ctx.work, "asan")
     scns = [make_baseline()] + make_repeat(ctx, ctx.n(39, 390), 1000) + make_repeat(ctx, ctx.n(39, 390), 1000, faulty=True)
     scns += make_mixed(ctx, ctx.n(40, 192), ctx.n(20000, 100000))
+    scns += make_churn(ctx, ctx.n(16, 200))
     scns.append(make_flood(ctx, ctx.n(40000, 100000)))
     scns.append(make_cyclic_flood(ctx, ctx.n(40000, 100000)))
     scns += [make_multi_iface(ctx, ctx.n(200, 2000), i) for i in range(ctx.n(6, 32))]
@@ -387,11 +437,12 @@ def run(ctx):
                 rep.violation("C19:allocations-survive-reset", "scenario %s: after the final topology Reset %d allocations / %d bytes are live; "
                               "an interface that only ever saw a Reset holds %d / %d" % (sid, cnt, byt, base[0], base[1]))
     c = rep.counters
-    rep.need("after_reset_checked", c.get("after_reset_checked", 0), ctx.n(20, 96))
+    rep.need("after_reset_checked", c.get("after_reset_checked", 0), ctx.n(30, 200))
     rep.need("two_interface_histories", c.get("two_interface_histories", 0), ctx.n(15, 80))
     rep.need("repeat_checked", c.get("repeat_checked", 0), ctx.n(39, 390))
     rep.need("repeat_under_allocation_failures_checked", c.get("repeat_under_allocation_failures_checked", 0), ctx.n(39, 390))
     rep.need("plateau_checked or violation", c.get("plateau_checked", 0) + sum(1 for k in rep.viol if k.startswith("C19:retained")), 2)
+    rep.need("churn_rounds", c.get("churn_rounds", 0), ctx.n(50, 1000))
     rep.need("multi_iface_rounds", c.get("multi_iface_rounds", 0), ctx.n(1000, 50000))
     rep.need("mixed_frames", c.get("mixed_frames", 0), ctx.n(700000, 17 * 10 ** 6))
     rep.need("clock_gaps_between_frames", rep.counters.get("clock_gaps_between_frames", 0), 200)
